@@ -33,9 +33,15 @@ Proof. exact implicit_codes_fresh. Qed.
 Print Assumptions C11_implicit_codes_fresh.
 
 (* "a repeated declaration with the same code is harmless": duplicate elimination keeps one entry per
-   name - exactly the names that occur - and extends what it has already kept *)
+   name - exactly the names that occur, in order of first appearance - and an entry never loses an
+   explicit code (a later description without code, or with the same code, changes nothing) *)
 Theorem C11_duplicates_eliminated : forall ts seen out, dedupe_terms seen ts = Some out ->
-  NoDup (map fst seen) -> NoDup (map fst out) /\ (exists more, out = seen ++ more) /\
+  NoDup (map fst seen) -> NoDup (map fst out) /\ (exists more, map fst out = map fst seen ++ more) /\
   (forall nm, In nm (map fst out) <-> In nm (map fst seen) \/ In nm (map fst ts)).
 Proof. exact dedupe_names. Qed.
 Print Assumptions C11_duplicates_eliminated.
+
+Theorem C11_explicit_code_kept : forall ts seen out nm c, dedupe_terms seen ts = Some out ->
+  In (nm, c) seen -> c <> (-1) -> NoDup (map fst seen) -> In (nm, c) out.
+Proof. exact dedupe_keeps_explicit. Qed.
+Print Assumptions C11_explicit_code_kept.
